@@ -9,43 +9,43 @@ props = [json.loads(l) for l in open(os.path.join(V, "properties.jsonl"))]
 CLAIMED = {
     # id: (technique, level text, level note, design ref)
     "C01": ("commit-sequence typestate over all handler paths (path-sensitive abstract interpretation of the AST) + SQL shape rules",
-            "Decides necessary structural clauses: processed-mark only in the last commit of every handler path, multi-commit paths restricted to reviewed shapes, unmarked commits flip the guard status, nothing commits inside a transaction body, recovery case split exhaustive, claim CAS expects the status read, poll re-admits lapsed locks. Does not decide outcome equality with an uninterrupted run.",
+            "Decides necessary structural clauses: processed-mark only in the last commit of every handler path, multi-commit paths restricted to reviewed shapes, unmarked commits flip the guard status, nothing commits inside a transaction body, recovery case split exhaustive, claim CAS expects the status read, poll re-admits lapsed locks, every pushed message gets a fresh row identity, a stage with predefined tasks survives a kill between its claim and plan commits. Does not decide outcome equality with an uninterrupted run.",
             "Trusted: CPython ast, SQLite atomic commit, reviewed tables in sa/rules/c01.py (multi-commit shapes, no-mark list). Loops 0/1, exceptions at calls only.", "5/C01"),
     "C02": ("truth table over the extracted dedup guard + value-set entry-guard analysis on all handler paths + who-may-call",
-            "Decides: durable duplicate check dominates dispatch (16+ row truth table), every effectful commit of each handler is reached only with the addressed entity read in the step's start status, execute only under RUNNING / not canceled; task-level messages carry no loop-iteration identity (one listed known finding: a stale message of the previous iteration is accepted by the re-armed task). Does not decide outcome equality under permutations.",
+            "Decides: durable duplicate check dominates dispatch (16+ row truth table), every effectful commit of each handler is reached only with the addressed entity read in the step's start status, execute only under RUNNING / not canceled; task-level messages carry no loop-iteration identity (one listed known finding: a stale message of the previous iteration is accepted by the re-armed task); CompleteTask continues the stage only on paths that decided the result is not REDIRECT; the ancestor merge reads only schedule-independent columns. Does not decide outcome equality under permutations.",
             "Trusted: status sets read from models/status.py, guard table in sa/rules/c02.py.", "5/C02"),
     "C03": ("collector algebra over the join evaluators (status predicates as sets, dominating conditions of every READY return) + dispatch exhaustiveness + control-dependence / who-may-call rules in StartStageHandler + commit-effect rule on all handler paths",
-            "Decides: every READY of the AND / OR / first-of / multi-merge / quorum evaluators is returned only where the code has established that all (activated) / one / join_threshold upstreams are in a continuable status and the join has not fired; a halted upstream yields SKIP before READY; every JoinType member reaches its evaluator; tasks are planned only via _start_if_ready under phase == READY computed from upstreams read in the same activation; the jump bypass has one writer (the jump target) and is consumed; no commit that stores its own stage halted pushes StartStage. Does not decide the order of executions under every schedule.",
+            "Decides: every READY of the AND / OR / first-of / multi-merge / quorum evaluators is returned only where the code has established that all (activated) / one / join_threshold upstreams are in a continuable status and the join has not fired; a halted upstream yields SKIP before READY; every JoinType member reaches its evaluator; tasks are planned only via _start_if_ready under phase == READY computed from upstreams read in the same activation; the jump bypass has one writer (the jump target) and is consumed; no commit that stores its own stage halted pushes StartStage; SkipStage / SKIPPED only for a READY stage, never in the SKIP (upstream halted) phase. Does not decide the order of executions under every schedule.",
             "Trusted: status sets of models/status.py as written; C04 for the claim.", "5/C03"),
     "C04": ("ordering analysis on all paths of _start_if_ready (claim CAS before planning) + SQL shape of the phase CAS + join-flag ordering",
-            "Decides: every planning side effect is dominated by a committed store_stage(expected_phase=status read); the CAS loser does nothing; the phase UPDATEs are CAS on (id, version, status); first-of/quorum joins are marked fired between claim and plan and never READY again. Does not decide the interleavings themselves.",
+            "Decides: every planning side effect is dominated by a committed store_stage(expected_phase=status read); the CAS loser does nothing; the phase UPDATEs are CAS on (id, version, status); first-of/quorum joins are marked fired between claim and plan and never READY again; CompleteStage pushes StartStage for every activated downstream (never narrowed by a read of the join's other upstreams); the zombie re-plan lacks evidence that the first claimer is gone (one listed known finding: double planning in the claim window). Does not decide the interleavings themselves.",
             "Trusted: SQLite writer serialisation (the conditional UPDATE is the linearisation point).", "5/C04"),
     "C06": ("typestate of .status writes on all handler paths (validated / legal from the path condition / listed re-arm / not durable) + whole-program scan + SQL who-may-write",
-            "Decides: VALID_TRANSITIONS table facts; every .status assignment reached on a handler path is validated, legal for every (from,to) the path condition allows, a listed re-arm/force-mark, or not durable; every other assignment site is listed; status columns have a closed writer set.",
-            "Trusted: VALID_TRANSITIONS as written in models/status.py; jump force-marks are listed, not proved.", "5/C06"),
+            "Decides: VALID_TRANSITIONS table facts; every .status assignment reached on a handler path is validated, legal for every (from,to) the path condition allows, a listed re-arm/force-mark, or not durable; every other assignment site is listed; status columns have a closed writer set; store.pause() never overwrites a completed status (one listed known finding: NOT_STARTED -> PAUSED, encoded by existing tests); JumpToStage acts only on a source stage read RUNNING.",
+            "Trusted: VALID_TRANSITIONS as written in models/status.py.", "5/C06"),
     "C07": ("SQL shape rules for every UPDATE of the stage/task tables + freshness of objects stored inside retried closures (path analysis) + exception-discipline scan",
-            "Decides: every UPDATE is a version CAS whose failure raises ConcurrencyError before the in-memory bump; closed DML writer set; objects stored in a retry_on_concurrency_error closure are read inside it; no except clause swallows ConcurrencyError outside a reviewed list; rollback restores versions; the in-memory token advances by += 1 after the CAS or comes from the write's RETURNING, never from a separate read; no whole-context snapshot of an earlier read is written back onto a stage. Does not decide interleavings.",
+            "Decides: every UPDATE is a version CAS whose failure raises ConcurrencyError before the in-memory bump; closed DML writer set; objects stored in a retry_on_concurrency_error closure are read inside it; no except clause swallows ConcurrencyError outside a reviewed list; rollback restores versions; the in-memory token advances by += 1 after the CAS or comes from the write's RETURNING, never from a separate read; no whole-context snapshot of an earlier read is written back onto a stage (any spelling); an INSERT on a versioned table never overwrites unchecked; a stage stored under conditions is stored from the read those conditions were tested on. Does not decide interleavings.",
             "Trusted: SQLite writer serialisation; reviewed swallow list in sa/rules/c07.py.", "5/C07"),
     "C08": ("SQL shape rules on every queue/DLQ statement + statement ordering in poll/move/replay + processor call-order scan + sibling agreement of the attempt limit",
             "Decides: claim is a CAS on (id, version) and the loser returns before touching the message; DLQ move/replay are DELETE..RETURNING + INSERT of the returned row in one commit; closed deleter set; ack only after the handler returned; reschedule keeps attempts; sweep reachable; the attempt limit is one quantity; the sweep takes every attempts-exhausted row; unhandled types raise. Does not decide timing / interleavings.",
             "Trusted: SQLite writer serialisation, datetime() granularity.", "5/C08"),
     "C09": ("truth table over the extracted dedup guard + structural invariants of the bloom filter + commit-sequence rule for the processed-mark + SQL shapes",
-            "Decides: the durable record is consulted unless the filter is trusted, authoritative and negative; one deterministic position function, all positions set, bits only OR-ed; authority only after a complete hydrate, revoked by reset; the hydration listing returns every processed id; mark in the last commit and every effectful commit marks or flips its guard status, INSERT OR IGNORE without commit, same table/key as the lookup.",
+            "Decides: the durable record is consulted unless the filter is trusted, authoritative and negative; one deterministic position function, all positions set, bits only OR-ed; authority only after a complete hydrate, revoked by reset; the hydration listing returns every processed id; mark in the last commit and every effectful commit marks or flips its guard status, INSERT OR IGNORE without commit, same table/key as the lookup; the lookup never fails open; the retention sweep compares processed_at and its cutoff in one format.",
             "Trusted: hashlib determinism.", "5/C09"),
     "C10": ("effect analysis of the sweep on all its paths (pushes only) + who-may-call scan of recovery.py + control-dependence of every task-level message on the pending-message check + SQL shape of that check + commit-sequence shapes + receiver value sets + sibling agreement with ContinueParentStage",
-            "Decides: the sweep never writes entity or dedup state; every RunTask/StartTask it builds is dominated by `not has_pending_message_for_task(that task)`; the pending check sees locked, delayed and retried messages alike and every task-carrying message has a task_id; all messages of one workflow are pushed in one transaction; the receivers of the unguarded messages act only on NOT_STARTED entities (RunTask: RUNNING); StartTask(first task) is re-queued only when the before-stages are complete, with the same status set ContinueParentStage uses; a duplicate StartStage re-plans a RUNNING stage only if no task and no synthetic child exists; a synthetic child is re-queued only under a parent-state gate. Does not decide outcome equality with and without sweeps.",
+            "Decides: the sweep never writes entity or dedup state; every RunTask/StartTask it builds is dominated by `not has_pending_message_for_task(that task)`; the pending check sees locked, delayed and retried messages alike and every task-carrying message has a task_id; all messages of one workflow are pushed in one transaction; the receivers of the unguarded messages act only on NOT_STARTED entities (RunTask: RUNNING); StartTask(first task) is re-queued only when the before-stages are complete, with the same status set ContinueParentStage uses; a duplicate StartStage re-plans a RUNNING stage only if no task and no synthetic child exists; a synthetic child is re-queued only under a parent-state gate; a NOT_STARTED workflow is restarted through StartWorkflow only (no stage-level message is built for it). Does not decide outcome equality with and without sweeps.",
             "Trusted: SQLite writer serialisation; C04 for the StartStage claim.", "5/C10"),
     "C11": ("ordering analysis on all paths of _start_if_ready (claims inside the claim transaction) + SQL/DDL shape rules for stage_claims",
-            "Decides: mutex/choice claims are taken inside the claim transaction before the claiming store; a refused claim rolls back and never plans (mutex re-queues, choice cancels itself atomically); acquire_claim statement shapes and the unique key in schema and migration; claims only swept for completed executions; the winner cancels siblings. Does not decide interleavings or fairness.",
+            "Decides: mutex/choice claims are taken inside the claim transaction before the claiming store; a refused claim rolls back and never plans (mutex re-queues, choice cancels itself atomically); acquire_claim statement shapes and the unique key in schema and migration; claims only swept for completed executions; the winner cancels siblings of its own group; the deferred-choice fast path takes only a sibling that started for the winner (truth table over status x start_time). Does not decide interleavings or fairness.",
             "Trusted: SQLite unique-constraint semantics.", "5/C11"),
     "C05": ("decision table of _determine_final_status (extracted from the AST) + completeness/effectiveness of continuation pushes on all handler paths (commit-sequence analysis)",
-            "Decides necessary conditions of progress: SUCCEEDED only under all-continuable (one listed known finding), TERMINAL dominates; every commit that stores the own stage completed pushes a continuation or is listed with a guard; every pushed continuation is accepted by its receiver in a status the commit stored; a normally returning path never leaves the own entity RUNNING without a continuation; every path that consumes its message without effect is taken under a reviewed condition (consume table) and wait sets only contain live children; an upward CompleteStage is pushed only for a halted child; validated status writes in error branches are legal; a lost claim is a duplicate only if the stage left NOT_STARTED; determine_status ranks a halted after-stage above unfinished ones; StartStage's wait budget applies to NOT_STARTED stages only (five listed known findings). Does not decide liveness over all arrival orders.",
+            "Decides necessary conditions of progress: SUCCEEDED only under all-continuable (one listed known finding), TERMINAL dominates; every commit that stores the own stage completed pushes a continuation or is listed with a guard; every pushed continuation is accepted by its receiver in a status the commit stored; a normally returning path never leaves the own entity RUNNING without a continuation; every path that consumes its message without effect is taken under a reviewed condition (consume table) and wait sets only contain live children; an upward CompleteStage is pushed only for a halted child; validated status writes in error branches are legal; a lost claim is a duplicate only if the stage left NOT_STARTED; determine_status ranks a halted after-stage above unfinished ones; StartStage's wait budget applies to NOT_STARTED stages only (five listed known findings). _other_branches_incomplete counts every RUNNING / SUSPENDED / PAUSED stage and every ready NOT_STARTED stage (truth table); the element-wise core-work gate for pre-declared after-stages accepts exactly complete-and-not-halt; a task-result status CompleteTask stops at always travels with JumpToStage (one listed known finding: TaskResult.redirect() without target). Does not decide liveness over all arrival orders.",
             "Trusted: reviewed tables in sa/rules/c05.py (NO_CONTINUATION_OK, ACC, CONSUME_OK). Open known findings listed in known_findings.json (STOPPED => SUCCEEDED, plan CAS loss, before-child FAILED_CONTINUE, claim lost to a non-claiming writer).", "5/C05"),
     "C12": ("writer/reader agreement between recorder call sites on all handler paths and the replayer's apply cases + structural rules on the as_of cut and snapshot keys",
-            "Decides: at every recorder call site on a handler path the status the replayer derives from the event equals the entity's status there; every regular durable status change of a stage/task/workflow has an event for that entity on its path (exceptions listed with reason); every emitted event type has an apply case; the as_of cut filters <= and only uses snapshots not newer than the cut; snapshot keys written = keys restored. Does not decide payload equality.",
+            "Decides: at every recorder call site on a handler path the status the replayer derives from the event equals the entity's status there; every regular durable status change of a stage/task/workflow has an event for that entity on its path (exceptions listed with reason); every emitted event type has an apply case; the as_of cut filters <= and only uses snapshots not newer than the cut; snapshot keys written = keys restored. The log follows the commit order: no event is recorded outside a transaction after a commit of the same path that released a follow-up message. Does not decide payload equality.",
             "Trusted: reviewed tables in sa/rules/c12.py (NO_EVENT_OK, NO_EVENT_SITES, EVENT_STATUS_OK).", "5/C12"),
     "C13": ("structural rules on the event scope / transaction context managers + event-in-transaction rule on all handler paths + SQL/DDL shape of the events table",
-            "Decides: events recorded under an open scope are appended on the scope's connection and published only after the outermost commit; abort never publishes; the scope is closed before publication; completion events of CompleteTask/CompleteStage/SkipStage/CancelStage are inside the transaction that stores the completed status; no completion event is recorded before the commit that makes the state durable; sequence is AUTOINCREMENT and never supplied.",
+            "Decides: events recorded under an open scope are appended on the scope's connection and published only after the outermost commit; abort never publishes; the scope is closed before publication; completion events of CompleteTask/CompleteStage/SkipStage/CancelStage are inside the transaction that stores the completed status; no completion event is recorded before the commit that makes the state durable; sequence is AUTOINCREMENT and never supplied. The workflow outcome events obey the same rule; the join decision uses the connection manager's own key for 'same database'; the rollback path also covers BaseException.",
             "Trusted: SQLite atomic commit; event store in the same database (documented otherwise).", "5/C13"),
     "C14": ("guard extraction on handle_exception + def-use dataflow of the retry budget field through message construction, both serialisers, the queue columns and poll_one + commit-sequence rule",
             "Decides: a transient retry is reached only under is_transient and budget+1 < max_attempts, every other path marks TERMINAL; the retry message carries budget+1; the budget field survives push -> row -> poll -> message (not overwritten by a queue column); context_update and the retry push are one transaction on a freshly read stage; the saved progress is read from the failing exception then its causes nearest first; every INSERT into the queue starts the delivery counter at 0. Does not decide backoff durations.",
@@ -54,19 +54,19 @@ CLAIMED = {
             "Decides: the jump push is control-dependent on _check_jump_count being True and the False branch fails the stage atomically; the limit test is >= with the documented precedence and default; the counter is incremented and written to both stages; resets keep the jump bookkeeping and clear every join bookkeeping key any writer sets; each jump is one transaction on freshly read stages; downstream collection only under all-prerequisites-in-scope. Does not decide exactness of the re-arm set for every DAG.",
             "Trusted: key tables read from the source, not hard-coded.", "5/C15"),
     "C16": ("def-use / structural rules on the ancestor merge (closure, Kahn order, overwrite and list rule) in every store implementation + statement-order rule in _plan_stage + sibling agreement of the two merge sites + inherited-key rule + commutativity shape of the order-insensitive reducers",
-            "Decides the structural necessary conditions: merged stages = transitive requisites of the stage, itself excluded; a stage is merged after its requisites and later non-list values overwrite (nearest wins), lists concatenate; ancestors, then reducers, then own context (reducer keys protected); re-arm clears outputs and inherited keys are not overlaid as own at the next planning (current iteration); sum/max/min fold all branch values commutatively. Does not decide the resulting values for every DAG and schedule.",
+            "Decides the structural necessary conditions: merged stages = transitive requisites of the stage, itself excluded; a stage is merged after its requisites and later non-list values overwrite (nearest wins), lists concatenate; ancestors, then reducers, then own context (reducer keys protected); re-arm clears outputs and inherited keys are not overlaid as own at the next planning (current iteration); sum/max/min fold all branch values commutatively. Every result is reducer(all values of the branches in which the key is present); the outputs that enter the in-place merge are objects nobody else holds (no memoised decoder). Does not decide the resulting values for every DAG and schedule.",
             "Trusted: dict/set semantics of CPython.", "5/C16"),
     "C17": ("path-condition analysis of task execution on all RunTask paths + commit-sequence shapes of CancelWorkflow/CancelStage + SQL who-may-write for is_canceled",
-            "Decides: a task body/timeout hook is executed only where the path condition has is_canceled False, the workflow not complete and the task RUNNING; cancel handlers have the reviewed atomic shapes and only write CANCELED to non-completed entities; is_canceled has one writer and is never reset; a CANCELED top-level stage yields CANCELED after the TERMINAL test. Does not decide liveness of cancellation.",
+            "Decides: a task body/timeout hook is executed only where the path condition has is_canceled False, the workflow not complete and the task RUNNING; cancel handlers have the reviewed atomic shapes and only write CANCELED to non-completed entities; is_canceled has one writer and is never reset; a CANCELED top-level stage yields CANCELED after the TERMINAL test. CancelWorkflow's fan-out covers every unfinished stage of the workflow; the handlers that wind a canceled workflow down consume a message without continuation only under reviewed conditions (consume table shared with C05). Does not decide liveness of cancellation.",
             "Trusted: SQLite writer serialisation.", "5/C17"),
     "C18": ("commit-sequence shapes of SignalStage and _handle_suspended on all paths + freshness of the stored stage + who-may-write scan of the mailbox key",
-            "Decides: a signal either resumes a SUSPENDED stage, is appended to the durable mailbox of a persistent signal, or is only marked - each in one transaction with the mark; suspending consumes a buffered signal atomically (pop, write back, RUNNING, push) or parks without push; every mailbox/SUSPENDED store is a CAS store of a stage read inside the retried closure; closed writer set of _buffered_signals; resets keep it; planning copies own-only context values unchanged; a RunTask for an executing task is dropped only as a redelivery (one listed known finding). Does not decide the interleavings themselves.",
+            "Decides: a signal either resumes a SUSPENDED stage, is appended to the durable mailbox of a persistent signal, or is only marked - each in one transaction with the mark; suspending consumes a buffered signal atomically (pop, write back, RUNNING, push) or parks without push; every mailbox/SUSPENDED store is a CAS store of a stage read inside the retried closure; closed writer set of _buffered_signals; resets keep it; planning copies own-only context values unchanged; a RunTask for an executing task is dropped only as a redelivery (one listed known finding). Deliver-or-buffer is decided on the copy that is written (decision/read coherence); every public HITL entry point sends a persistent signal by default. Does not decide the interleavings themselves.",
             "Trusted: optimistic-lock CAS + retry (C07).", "5/C18"),
     "C19": ("writer/reader table agreement: dataclass fields = INSERT columns = bound parameters = converter keywords ⊆ DDL columns; codec pairing per column; UPDATE column set; ORDER BY of task reads; message registry and serialiser agreement",
             "Decides the structural part of round-trip fidelity for workflows, stages, tasks and queue messages: no field is dropped or crossed between write and read, each column is decoded with the inverse of its encoder, task order is preserved by ORDER BY id, both message serialisers agree and every message type is registered. Does not decide value-level JSON fidelity.",
             "Trusted: listed exemptions in sa/rules/c19.py (transient fields).", "5/C19"),
     "C20": ("whitelist + escape analysis of the expression evaluator (may-raise table per operation vs. enclosing handlers), side-effect scan, caller discipline scan, structural rules on topological_sort / validate_stage_graph / Workflow.create",
-            "Decides: the evaluator dispatches on a closed whitelist of side-effect-free node kinds with default deny and reaches no reflective or code-executing call; its operator tables hold reviewed operators; it writes nothing; every operation that can raise on some input is enclosed by a handler converting to ExpressionError (incl. parser and recursion limits); callers catch ExpressionError without re-raising and non-string conditions are rejected with it; topological_sort emits a stage only after its requisites and raises when stuck; validation order and Workflow.create calling it. Does not decide completeness of validation or exotic context values.",
+            "Decides: the evaluator dispatches on a closed whitelist of side-effect-free node kinds with default deny and reaches no reflective or code-executing call; its operator tables hold reviewed operators; it writes nothing; every operation that can raise on some input is enclosed by a handler converting to ExpressionError (incl. parser and recursion limits); callers catch ExpressionError without re-raising and non-string conditions are rejected with it; topological_sort emits a stage only after its requisites and raises when stuck; validation order and Workflow.create calling it. Every Workflow factory that takes a stage list validates it. Does not decide completeness of validation or exotic context values.",
             "Trusted: reviewed OP_RAISES table in sa/rules/c20.py; CPython ast.parse exception set.", "5/C20"),
 }
 
